@@ -200,7 +200,7 @@ elab "ev_head" : tactic => withMainContext do
 /-- one step on an `Ev` goal (alternatives are tried bottom-up) -/
 syntax "ev_step" : tactic
 macro_rules | `(tactic| ev_step) => `(tactic| ev_head)
-macro_rules | `(tactic| ev_step) => `(tactic| with_reducible refine Ev.of_fst_eq (by assumption) ?_)
+macro_rules | `(tactic| ev_step) => `(tactic| with_reducible refine Ev.of_fst_eq (by with_reducible assumption) ?_)
 macro_rules | `(tactic| ev_step) => `(tactic| with_reducible assumption)
 macro_rules | `(tactic| ev_step) => `(tactic| with_reducible exact Ev.refl _)
 
